@@ -61,8 +61,14 @@ impl Matcher {
     pub fn deep_clone(&self) -> Self {
         match &self.0 {
             MatcherState::Normal(inner) => {
-                let parser = inner.parser.deep_clone();
-                Self::new(Ok(parser))
+                // deep_clone() takes the shared lexer lock, which is poisoned if a sibling
+                // panicked while holding it; report that as a failed matcher, not as a panic
+                match panic_utils::catch_unwind(std::panic::AssertUnwindSafe(|| {
+                    Ok(inner.parser.deep_clone())
+                })) {
+                    Ok(parser) => Self::new(Ok(parser)),
+                    Err(e) => Matcher(MatcherState::Error(inner.parser.augment_err(e))),
+                }
             }
             MatcherState::Error(_) => self.clone(),
         }
